@@ -11,6 +11,7 @@ package main
 import (
 	"errors"
 	"fmt"
+	"math/rand"
 	"net"
 	"strings"
 	"time"
@@ -375,6 +376,35 @@ func (g *gen) histCase(scheme string, evs []event, stream string) {
 		g.w.Count("history:with-scribble")
 	}
 	g.w.Add(term, js, "", key, fails > 0 || scribbles > 0)
+}
+
+// shuffleCase: sd.NewRandomFixedSubscriber on hosts with the global math/rand source seeded, and
+// the permutation rand.Perm yields after the same seed (the function draws exactly one
+// rand.Perm(len(hosts))); nothing else uses the global source meanwhile (parked subscribers of
+// earlier cases are blocked inside the scripted lookup).
+func (g *gen) shuffleCase(hosts []string, seed int64) {
+	var got []string
+	panicked := ""
+	func() {
+		defer func() {
+			if p := recover(); p != nil {
+				panicked = fmt.Sprint(p)
+			}
+		}()
+		rand.Seed(seed)
+		fs := sd.NewRandomFixedSubscriber(append([]string{}, hosts...))
+		got, _ = fs.Hosts()
+	}()
+	if panicked != "" {
+		got = []string{"<panic: " + panicked + ">"}
+	}
+	rand.Seed(seed)
+	perm := rand.Perm(len(hosts))
+	term := emit.App("CShuffle", hostsCoq(hosts), emit.NatList(perm), hostsCoq(got))
+	js := map[string]interface{}{"level": "shuffle", "hosts": hosts, "seed": seed, "rand_perm": perm, "observed": got}
+	g.w.Count("level:shuffle")
+	g.w.Count("shuffle:hosts:" + sizeClass(len(hosts)))
+	g.w.Add(term, js, "", fmt.Sprintf("S|%d|%q", seed, hosts), len(hosts) > 1)
 }
 
 // ---- random inputs ----
@@ -774,6 +804,23 @@ func main() {
 	for i := 0; i < 20*mult; i++ {
 		g.histCase("http", []event{okL(g.tiers()), rd, okL(g.tiers()), rd}, "random-tiers")
 	}
+
+	// ---- 6. the shuffle of lists longer than 100 (sd.NewRandomFixedSubscriber), unit level ----
+	for i, n := range []int{0, 1, 2, 3, 7, 100, 101, 102, 150, 257, 400} {
+		hs := make([]string, n)
+		for j := range hs {
+			hs[j] = fmt.Sprintf("http://n%d.example.:80", j%(1+n*2/3)) // some hosts repeated
+		}
+		g.shuffleCase(hs, int64(cfg.Seed)*1000+int64(i))
+	}
+	for i := 0; i < 6*mult; i++ {
+		n := 101 + g.r.Intn(150)
+		hs := make([]string, n)
+		for j := range hs {
+			hs[j] = fmt.Sprintf("http://n%d.example.:80", g.r.Intn(n))
+		}
+		g.shuffleCase(hs, int64(g.r.Intn(1<<30)))
+	}
 	w.Meta["refresh_watchdog_timeouts"] = refreshTimeouts
-	w.Close(fmt.Sprintf("corpus (30 weight vectors, 26 record sets incl. 100..1000 records, IPv6 and non-UTF-8 targets, 13 histories); exhaustive: compact/normalize/gcd on all vectors over {0,1,2,3,50,100,101,65535} of length 1..%d and resolve on all record lists of length 1..%d over priority {0,1} x weight {0,1,2,101,65534,65535} (3 records: {0,1,101,65535}) x target {a,b}; priority tiers at the boundaries: %d record sets (priority p / p+1 / p+2 for p in {0,7,65533}, lowest tier weights {0},{0,0},{0,1}, next tier weight 65535/65534/1/0 with its target sorting before / after / equal on another port, both input orders) and 2 histories with a drained lowest tier, plus random tiers (adjacent priorities, boundary weights); random: weight vectors (1..130, some 101..1000), record sets (duplicate targets, priorities 0..3 / 65535, ports 0..65535), histories of up to 14 events (successful / failing lookups with and without records, reads, callers scribbling over returned slices) through NewDetailedWithScheme with a scripted lookup; malformed: arbitrary byte targets, odd schemes, nil answers. nontrivial = compact changes the weights / several priorities or weights / a failed refresh after a success or a scribble", maxLen, maxRec, nTiers), true)
+	w.Close(fmt.Sprintf("corpus (30 weight vectors, 26 record sets incl. 100..1000 records, IPv6 and non-UTF-8 targets, 13 histories); exhaustive: compact/normalize/gcd on all vectors over {0,1,2,3,50,100,101,65535} of length 1..%d and resolve on all record lists of length 1..%d over priority {0,1} x weight {0,1,2,101,65534,65535} (3 records: {0,1,101,65535}) x target {a,b}; priority tiers at the boundaries: %d record sets (priority p / p+1 / p+2 for p in {0,7,65533}, lowest tier weights {0},{0,0},{0,1}, next tier weight 65535/65534/1/0 with its target sorting before / after / equal on another port, both input orders) and 2 histories with a drained lowest tier, plus random tiers (adjacent priorities, boundary weights); random: weight vectors (1..130, some 101..1000), record sets (duplicate targets, priorities 0..3 / 65535, ports 0..65535), histories of up to 14 events (successful / failing lookups with and without records, reads, callers scribbling over returned slices) through NewDetailedWithScheme with a scripted lookup; malformed: arbitrary byte targets, odd schemes, nil answers; shuffle: sd.NewRandomFixedSubscriber on 0..400 hosts with the math/rand source seeded, compared element by element with the model applied to the rand.Perm result of the same seed. nontrivial = compact changes the weights / several priorities or weights / a failed refresh after a success or a scribble", maxLen, maxRec, nTiers), true)
 }
